@@ -153,14 +153,18 @@ func stateBytes(st sm.State) []byte {
 // gateLogger lets the harness act at one point of Reactor.Sync: after the
 // syncer exists (so adverts are accepted) and before SyncAny looks at the pool.
 type gateLogger struct {
-	gate func()
-	once sync.Once
-	out  log.Logger
+	gate  func()
+	once  sync.Once
+	out   log.Logger
+	added func(kv []interface{}) // the syncer reports that AddChunk queued a chunk
 }
 
 func (g *gateLogger) Debug(msg string, kv ...interface{}) {
 	if g.out != nil {
 		g.out.Debug(msg, kv...)
+	}
+	if msg == "Added chunk to queue" && g.added != nil {
+		g.added(kv)
 	}
 	if msg == "Requesting snapshots from known peers" && g.gate != nil {
 		g.once.Do(g.gate)
@@ -297,6 +301,29 @@ func (w *world) onSnapshotsRequest(l *liar, r int) {
 }
 
 func (w *world) onChunkRequest(l *liar, n int, msg *ssproto.ChunkRequest) {
+	if w.scn.RaceRereq && w.rightBytes(msg.Height, msg.Format, msg.Index) != nil {
+		// the first request for a chunk stays unanswered; when the request is sent again (to this or
+		// another peer) the peer asked first and the peer asked now answer at the same moment
+		key := fmt.Sprintf("%d/%d/%d", msg.Height, msg.Format, msg.Index)
+		w.sched.amu.Lock()
+		if w.sched.rereq == nil {
+			w.sched.rereq = map[string][]int{}
+		}
+		asked := w.sched.rereq[key]
+		if len(asked) == 0 {
+			w.sched.rereq[key] = []int{l.idx}
+			w.sched.amu.Unlock()
+			return
+		}
+		first := asked[0]
+		delete(w.sched.rereq, key)
+		w.sched.amu.Unlock()
+		go func() {
+			peers, wrong := w.sched.racePeers(2+int(msg.Index)%2, l.idx, first)
+			w.sched.raceBatch(msg.Height, msg.Format, msg.Index, peers, wrong, true)
+		}()
+		return
+	}
 	ps := w.scn.Peers[l.idx]
 	kind := ""
 	if n < len(ps.Script) {
@@ -350,7 +377,7 @@ func (w *world) onChunkRequest(l *liar, n int, msg *ssproto.ChunkRequest) {
 func (w *world) rightBytes(h uint64, f uint32, i uint32) []byte {
 	for _, s := range w.scn.Catalog {
 		if s.Kind == "true" && s.Height == h && s.Format == f && i < s.Chunks {
-			return content(w.scn.SubSeed, h, f, i)
+			return content(w.scn.SubSeed, w.scn.ChunkBody, h, f, i)
 		}
 	}
 	return nil
@@ -386,11 +413,34 @@ func runChild(scn *Scenario, outPath string) {
 	if scn.Discovery == "gate0" {
 		gl.gate = w.gate
 	}
+	gl.added = func(kv []interface{}) {
+		e := Ev{K: "added", P: -1, C: -1}
+		for k := 0; k+1 < len(kv); k += 2 {
+			switch kv[k] {
+			case "height":
+				if v, ok := kv[k+1].(uint64); ok {
+					e.H = v
+				}
+			case "format":
+				if v, ok := kv[k+1].(uint32); ok {
+					e.F = v
+				}
+			case "chunk":
+				if v, ok := kv[k+1].(uint32); ok {
+					e.I = v
+				}
+			}
+		}
+		w.log.add(e)
+	}
 	w.react.SetLogger(gl)
 
 	pcfg := config.DefaultP2PConfig()
 	pcfg.AllowDuplicateIP = true
 	pcfg.FlushThrottleTimeout = 2 * time.Millisecond
+	if scn.ChunkBody > 0 {
+		pcfg.SendRate, pcfg.RecvRate = 1<<30, 1<<30 // large chunk bodies: do not measure the throttle
+	}
 	switches := make([]*p2p.Switch, 1+len(scn.Peers))
 	switches[0] = p2p.MakeSwitch(pcfg, 0, "127.0.0.1", "123.123.123", func(i int, sw *p2p.Switch) *p2p.Switch {
 		sw.AddReactor("STATESYNC", w.react)
